@@ -359,7 +359,7 @@ PROPS = {
     ),
     "C10": dict(
         module="Hb.Props.C10",
-        ties=[("scen", "mixed", 300, 10000), ("scen", "iter", 150, 4000), ("scen", "table", 150, 5000),
+        ties=[("scen", "mixed", 300, 10000), ("scen", "retain-chain", 120, 4000), ("scen", "iter", 150, 4000), ("scen", "table", 150, 5000),
               ("scen", "set", 120, 4000), ("scen", "panic-mixed", 4, 120)],
         backends=["sse2", "portable"],
         design="§7 C10",
@@ -486,8 +486,27 @@ def gen_seed(seed, i):
 
 
 def run_ties(pid, cfg, tier, seed, workdir, stats):
-    thorough = tier == "thorough"
+    """Run every tie. A tie that breaks WITHOUT a concrete failing input does not end the run: the remaining
+    ties (other generators, tapes, back-ends) are still executed as part of the search for a failing input,
+    and a violation with a replayable input found there is the one reported."""
+    pending = None
     for tie in cfg["ties"]:
+        try:
+            run_tie(pid, cfg, tie, tier, seed, workdir, stats)
+        except Violation as v:
+            if v.found_input:
+                if pending is not None:
+                    v.what = v.what + " [first broken tie: %s]" % pending.what
+                raise v
+            if pending is None:
+                pending = v
+    if pending is not None:
+        raise pending
+
+
+def run_tie(pid, cfg, tie, tier, seed, workdir, stats):
+    thorough = tier == "thorough"
+    if True:
         kind = tie[0]
         if kind == "pure":
             for b in cfg.get("backends", ["sse2"]):
